@@ -5,6 +5,8 @@ import (
 
 	"github.com/tdewolff/parse/v2"
 	"github.com/tdewolff/parse/v2/js"
+
+	"verif/internal/ev"
 )
 
 // fixed defects of the pinned tree, replayed without the library
@@ -47,5 +49,28 @@ func TestRegress_Accept(t *testing.T) {
 		} else if got := ast.String(); got != want {
 			t.Errorf("%q parses to %s, want %s", src, got, want)
 		}
+	}
+}
+
+// known findings (KNOWN_FINDINGS.txt): replayed exactly; KNOWN-FINDING while listed and still present
+func TestKnown_BlockFunctionAndImportBindings(t *testing.T) {
+	known := ev.KnownFindings("C03")
+	parses := func(src string) bool {
+		_, err := js.Parse(parse.NewInputString(src), js.Options{})
+		return err == nil
+	}
+	// K-C03-1
+	bad1 := !parses("let a; { function a(){} }") || parses("{ function a(){} let a }")
+	if _, listed := known["K-C03-1"]; bad1 && listed {
+		ev.ReportKnown("C03", "K-C03-1", "\"let a; { function a(){} }\" is rejected and \"{ function a(){} let a }\" is accepted: a function declaration in a block is declared in the function scope only")
+	} else if bad1 {
+		t.Errorf("\"let a; { function a(){} }\" accepted=%v, \"{ function a(){} let a }\" accepted=%v", parses("let a; { function a(){} }"), parses("{ function a(){} let a }"))
+	}
+	// K-C03-2
+	bad2 := parses("import {a} from 'x'; let a")
+	if _, listed := known["K-C03-2"]; bad2 && listed {
+		ev.ReportKnown("C03", "K-C03-2", "\"import {a} from 'x'; let a\" is accepted: import bindings are not declared in the module scope")
+	} else if bad2 {
+		t.Errorf("\"import {a} from 'x'; let a\" is accepted")
 	}
 }
